@@ -511,7 +511,7 @@ def fn_method_expectations(I, f, d, eff, O, method_trait, method_impl, mode, fn_
         if len(user_names) == len(user_params) and user_params[k].variant == 'Typed':
             pk = I.unbox(I.f(ex.force_slot(user_params[k].fields, 0), 'pat')).variant
             kind = 'plain-binding' if pk == 'Ident' else ('wildcard' if pk == 'Wild' else 'destructuring:' + pk)
-        O.add('C16', f'{tag}:generated-name-does-not-shadow-the-fn', znot(name_eq(n, fname)), f'parameter {k} is named {n}, the fn {fname}', cls=kind)
+        O.add('C16', f'{tag}:param{k}:generated-name-does-not-shadow-the-fn', znot(name_eq(n, fname)), f'parameter {k} ({kind}) is named {n}, the fn {fname}', cls=kind)
     if len(user_names) == len(user_params):
         for k, up in enumerate(user_params):
             pt = ex.force_slot(up.fields, 0) if up.variant == 'Typed' else None
@@ -574,8 +574,16 @@ def fn_method_expectations(I, f, d, eff, O, method_trait, method_impl, mode, fn_
     for gp in I.items(gen_in, 'params'):
         if gp.variant != 'Type':
             keep.append(I.toks(gp))
-    O.add('C03', f'{tag}:method-generics-are-the-lifetime-and-const-params', len(mt.generics) == len(keep) and
-          zand(*[toks_eq(a, b) for a, b in zip(mt.generics, keep)]), f'{[show(g) for g in mt.generics]} vs {[show(g) for g in keep]}')
+    keep_lt = [g for g, gp in zip(keep, [gp for gp in I.items(gen_in, 'params') if gp.variant != 'Type']) if gp.variant == 'Lifetime']
+    got_lt = [g for g in mt.generics if g and g[0][0] == 'LT']
+    O.add('C03', f'{tag}:method-keeps-the-lifetime-parameters', len(got_lt) == len(keep_lt) and zand(*[toks_eq(a, b) for a, b in zip(got_lt, keep_lt)]),
+          f'{[show(g) for g in mt.generics]} vs {[show(g) for g in keep_lt]}')
+    n_const = sum(1 for gp in I.items(gen_in, 'params') if gp.variant == 'Const')
+    got_const = [g for g in mt.generics if g and is_i(g[0], 'const')]
+    O.add('C03', f'{tag}:const-generic-not-declared-on-both-trait-and-method', not (n_const and got_const),
+          f'const parameter(s) {[show(g) for g in got_const]} are lifted to the trait and also left on the method (E0403)', cls='const-generic-declared-twice')
+    O.add('C03', f'{tag}:no-type-parameter-left-on-the-method', not [g for g in mt.generics if g and g[0][0] == 'I' and not is_i(g[0], 'const')],
+          f'{[show(g) for g in mt.generics]}')
     # where predicates on the method: all but those on the deps ident
     keepw = []
     wc = I.f(gen_in, 'where_clause')
@@ -881,7 +889,7 @@ def c11_unimock_params(I, eff, deps, fns, tm, params, mode, O):
 # C19: every macro-originated identifier is rooted
 # ---------------------------------------------------------------------------
 
-KEYWORDS_OK = {'trait', 'impl', 'for', 'fn', 'where', 'self', 'Self', 'pub', 'super', 'use', 'await', 'async', 'dyn', 'type', 'mod', 'unsafe',
+KEYWORDS_OK = {'as', 'trait', 'impl', 'for', 'fn', 'where', 'self', 'Self', 'pub', 'super', 'use', 'await', 'async', 'dyn', 'type', 'mod', 'unsafe',
                'true', 'false', 'crate', 'in', 'move', 'const', 'mut', 'ref'}
 RESERVED_OK = {'EntraitT', '__impl', 'Target', 'T'}
 ATTR_KEYS_OK = {'cfg_attr', 'test', 'prefix', 'api', 'unmock_with', 'unimock', 'mockall', '_'}
@@ -908,6 +916,9 @@ def c19_unrooted_idents(toks, extra_ok=()):
             continue
         # preceded by `.` : method call
         if i > 0 and is_p(toks[i - 1], '.'):
+            continue
+        # `Name = ..` directly after `<` or `,` : an associated-type binding (Future<Output = R>), resolved through the trait
+        if i + 1 < n and is_p(toks[i + 1], '=') and i > 0 and (is_p(toks[i - 1], '<') or is_p(toks[i - 1], ',')):
             continue
         # walk back over `:: seg :: seg` to the path root
         def is_name(t):
@@ -1393,15 +1404,25 @@ def spec_trait_mode(ex, variant, attr0, item0, out_value):
     items_in = I.items(item0, 'items')
     if out_value.variant == 'Err':
         msg = out_value.fields[0].fields[1]
+        exps = []
         if any(it.variant not in ('Fn', 'Type') for it in items_in):
-            exp = 'Entrait does not support this kind of trait item.'
-        elif has_it and kind in ('none', 'self'):
-            exp = 'Missing delegate_by'
-        else:
-            exp = None
-        O.add('C15', 'error-only-for-documented-misuse', exp is not None and isinstance(msg, str) and msg.startswith(exp),
-              f'macro reported `{msg}`; expected {"`" + exp + "`" if exp else "a successful expansion"}')
-        if exp != 'Missing delegate_by':
+            exps.append('Entrait does not support this kind of trait item.')
+        if has_it and kind in ('none', 'self'):
+            exps.append('Missing delegate_by')
+        # a parameter that is not a plain identifier cannot be forwarded: a diagnostic at the pattern is an acceptable
+        # outcome (C15: "either succeeds or reports an error"), a panic is not
+        for it in items_in:
+            if it.variant != 'Fn':
+                continue
+            sig = I.f(ex.force_slot(it.fields, 0), 'sig')
+            for fa in I.items(sig, 'inputs'):
+                if fa.variant == 'Typed' and I.unbox(I.f(ex.force_slot(fa.fields, 0), 'pat')).variant != 'Ident':
+                    exps.append('')
+                    break
+        # when several misuses coincide any of their diagnostics may come first
+        O.add('C15', 'error-only-for-documented-misuse', isinstance(msg, str) and any(msg.startswith(e) for e in exps),
+              f'macro reported `{msg}`; applicable diagnostics {exps if exps else "none (a successful expansion was expected)"}')
+        if not msg.startswith('Missing delegate_by'):
             sp = out_value.fields[0].fields[0]
             O.add('C15', 'error-span-at-input-token', isinstance(sp, Span) and sp.origin != 'call_site', f'span {sp}')
         return O
@@ -1755,7 +1776,7 @@ def spec_front_attr(ex, target, cells, parsed, attr0):
             if 'is not documented for' in ref[1]:
                 self_val = any(lz.get(i) == ('I', 'Self') for i in range(len(cells)))
                 O.add('C15', 'unsupported-option-message', isinstance(msg, str) and msg.startswith('Unsupported option'), f'`{msg}`',
-                      cls='delegate_by=Self' if self_val and 'delegate_by' in ref[1] else '')
+                      cls='delegate_by=Self' if self_val and 'delegate_by' in ref[1] else ('no_deps-on-mod' if ref[1] == 'option no_deps is not documented for mod' else ''))
         return O
     res = ref[1]
     O.add('C17', 'documented-attribute-list-is-accepted', got_ok,
